@@ -4,7 +4,7 @@
 (* Events are logged under one mutex, "call" before and "ret" after the    *)
 (* operation, so the log order is consistent with real time.               *)
 (*  new   {}                                                               *)
-(*  call / ret  {m}            one increment / update / record on metric m *)
+(*  call / ret  {m, n}         n increments / updates / records on metric m *)
 (*                             (gauge and timer arguments are 1, 2, 3, ... *)
 (*                             from the metric's single writer)            *)
 (*  snapcall {s}  snapret {s, vals:[[m, kind, v, ok]...]}                  *)
@@ -24,8 +24,8 @@ TNext ==
   /\ l <= Len(TraceLog)
   /\ LET r == TraceLog[l] IN
      CASE r.e = "new" -> st' = <<>> /\ co' = <<>> /\ los' = <<>>
-       [] r.e = "call" -> st' = Put(st, r.m, Get(st, r.m) + 1) /\ UNCHANGED <<co, los>>
-       [] r.e = "ret" -> co' = Put(co, r.m, Get(co, r.m) + 1) /\ UNCHANGED <<st, los>>
+       [] r.e = "call" -> st' = Put(st, r.m, Get(st, r.m) + r.n) /\ UNCHANGED <<co, los>>
+       [] r.e = "ret" -> co' = Put(co, r.m, Get(co, r.m) + r.n) /\ UNCHANGED <<st, los>>
        [] r.e = "snapcall" -> los' = Put(los, r.s, co) /\ UNCHANGED <<st, co>>
        [] r.e = "snapret" ->
             /\ UNCHANGED <<st, co, los>>
